@@ -197,8 +197,67 @@ func runC14(c *Check) {
 	}
 	c.Floor(P+".O3", "delete from the tag map", ndel, 1)
 
+	la.ReportLeaks(c, P+".O1", la.Funcs)
+	c14Defaults(c, P)
 	c14Dedup(c, P)
 	c14Hashers(c, P)
+}
+
+// c14Defaults: the defaults are filled into the Deduplicator the caller gave, so
+// that every middleware / decorator built from one Deduplicator shares one repository.
+func c14Defaults(c *Check, P string) {
+	const rel = "message/router/middleware"
+	D := c.P.Named(rel, "Deduplicator")
+	if D == nil {
+		return
+	}
+	mw := c.P.MethodOf(D, "Middleware")
+	if !c.Use(P+".O2", mw, "Deduplicator.Middleware") {
+		return
+	}
+	var def *ssa.Function
+	for _, cl := range CallsIn(mw) {
+		cal := CalleeFn(cl.Common())
+		if cal != nil && cal.Pkg == mw.Pkg && cal.Signature.Params().Len() == 1 && cal.Signature.Results().Len() == 1 && NamedOf(cal.Signature.Results().At(0).Type()) == D {
+			def = cal
+		}
+	}
+	if !c.Use(P+".O2", def, "defaults function of the Deduplicator") {
+		return
+	}
+	dP := def.Params[0]
+	isNil, notNil := NilEdges(def, FromParam(dP))
+	c.Floor(P+".O2", "test `deduplicator == nil` in the defaults function", len(isNil), 1)
+	for i, r := range Returns(def) {
+		k := fmt.Sprintf("defaults return#%d", i)
+		for _, v := range Origins(r.Results[0]) {
+			if v == ssa.Value(dP) {
+				continue
+			}
+			if al, ok := v.(*ssa.Alloc); ok && al != nil {
+				c.Report(GuardedBy(def, r, isNil), P+".O2", "DEFAULTS-SHARED", def, r.Pos(), k, "a new Deduplicator is created only when none was given; otherwise the caller's own instance is completed and returned, so that all its wrappings share one repository (one message per key overall)")
+				continue
+			}
+			c.Report(false, P+".O2", "DEFAULTS-SHARED", def, r.Pos(), k, "the defaults function returns something other than the caller's Deduplicator")
+		}
+	}
+	// the default repository is stored into the caller's instance
+	okSt := false
+	for _, st := range FieldStoresByName(def, "Repository") {
+		if _, base := FieldOf(st.Addr); base != nil && FromParam(dP)(base) && GuardedBy(def, st, notNil) {
+			okSt = true
+		}
+	}
+	c.Report(okSt, P+".O2", "DEFAULT-REPOSITORY-KEPT", def, def.Pos(), "default repository", "a default repository is stored in the caller's Deduplicator (not in a private copy)")
+	// both entry points use it
+	for _, name := range []string{"Middleware", "PublisherDecorator"} {
+		fn := c.P.MethodOf(D, name)
+		n := 0
+		for _, f := range WithAnon(fn) {
+			n += len(Callers([]*ssa.Function{f}, def))
+		}
+		c.Report(n >= 1, P+".O2", "DEFAULTS-APPLIED", fn, fn.Pos(), name, "defaults are applied through the shared defaults function")
+	}
 }
 
 func c14Dedup(c *Check, P string) {
